@@ -274,6 +274,8 @@ def c01_alphabet(g, slots, objs_mv=True):
     variants.append(dict(sh=dict(fn=F1, mk1='EQ', seqar=1), lo=0, hi=INF))
     variants.append(dict(sh=dict(fn=G1, mk1='ANY', nse=1), lo=1, hi=1))
     variants.append(dict(sh=dict(fn=F1, mk1='ANY', seqar=2), lo=1, hi=2))
+    variants.append(dict(sh=dict(fn=F1, mk1='ANY', tform='FORBID', nwith=1, vform=True), lo=0, hi=0, wmode=(2, 0, 0)))   # NAMED_FORBID_CALL_V(m, f(_), .WITH(_1 != 2))
+    variants.append(dict(sh=dict(fn=F1, mk1='EQ', tform='ALLOW', nse=1, vform=True), lo=0, hi=INF))
     variants.append(dict(sh=dict(fn=CF1, mk1='ANY', nse=1), lo=1, hi=2))   # the const overload f(int) const: calls through a const reference only
     for slot in slots:
         for v in variants:
@@ -295,10 +297,13 @@ M_C01 = F_KIND | F_REPCOUNT | F_CLOG | F_QEXP
 
 
 def plans_C01(g, tier):
+    # acceptance when a destruction requirement is one of the sequence steps (the object may die in or out of order)
+    mon_alpha = [g.call(0, F1, a) for a in (0, 1, 2)] + [g.op(OP_DELETE_WATCHED, obj=0), g.op(OP_DESTROY_SEQ, s1=0)] + [g.release(i) for i in range(4)]
+    mon_plan = dict(name='accept_with_monitor', mask=M_C01, du=0, dm=4 if tier == 'quick' else 6, alphabet=mon_alpha, prefixes=monitor_prefixes(g))
     if tier == 'quick':
-        return [dict(name='hist2', mask=M_C01, du=2, dm=6, alphabet=c01_alphabet(g, (0, 1)))]
+        return [dict(name='hist2', mask=M_C01, du=2, dm=6, alphabet=c01_alphabet(g, (0, 1))), mon_plan]
     return [dict(name='hist2', mask=M_C01, du=3, dm=8, alphabet=c01_alphabet(g, (0, 1))),
-            dict(name='hist3', mask=M_C01, du=2, dm=6, alphabet=c01_alphabet(g, (0, 1, 2)))]
+            dict(name='hist3', mask=M_C01, du=2, dm=6, alphabet=c01_alphabet(g, (0, 1, 2))), mon_plan]
 
 
 # ---------------------------------------------------------------- C02
@@ -328,6 +333,20 @@ def c02_configs(g, matchers, bounds, masks=(0, 1, 2, 3), with_variant=True):
 M_C02 = F_KIND | F_HANDLER | F_CLOG | F_QEXP
 
 
+def monitor_prefixes(g):
+    """A destruction requirement inside the sequences, between two call steps: once the object has died the step is no longer pending
+    and must not count as a passed-over step; the steps before it are passed for good."""
+    mon_pre = []
+    for m1, m2, m3 in itertools.product((1, 3), (1, 2, 3), (0, 1, 3)):
+        for b in [(0, INF), (1, 2)]:
+            ar = lambda m: 0 if m == 0 else (2 if m == 3 else 1)
+            mon_pre.append([g.create(0, g.shape(fn=F1, mk1='ANY', seqar=ar(m1), nse=1), obj=0, lo=b[0], hi=b[1], s1=1 if m1 == 2 else 0, s2=1),
+                            g.op(OP_NEW_WATCHED, obj=0), g.monitor(1, g.shape(mock='W', seqar=ar(m2)), w=0, s1=1 if m2 == 2 else 0, s2=1),
+                            g.create(2, g.shape(fn=F1, mk1='ANY', seqar=ar(m3), nse=1), obj=0, lo=1, hi=2, s1=1 if m3 == 2 else 0, s2=1),
+                            g.create(3, g.shape(fn=F1, mk1='EQ', seqar=0, nse=1), obj=0, k1=1, lo=0, hi=INF)])
+    return mon_pre
+
+
 def plans_C02(g, tier):
     calls = [g.call(0, F1, a) for a in (0, 1, 2)]
     rel = [g.release(i) for i in range(3)]
@@ -349,15 +368,7 @@ def plans_C02(g, tier):
                                 g.create(2, g.shape(fn=CF1, mk1='ANY', nse=1), obj=1, lo=1, hi=2),
                                 g.create(3, g.shape(fn=F2, mk1='ANY', mk2='ANY', nse=1), obj=0, lo=1, hi=2)])
     iso_alpha = calls + [g.call(1, F1, 1), g.call(0, G1, 1), g.call(0, F2, 1, 1), g.call(1, G1, 1), g.call(1, F2, 1, 1), g.call(0, CF1, 1), g.call(1, CF1, 1)] + [g.release(i) for i in range(4)]
-    # a destruction requirement inside the sequences: once the object has died the step is no longer pending and must not count as a passed-over step
-    mon_pre = []
-    for m1, m2, m3 in itertools.product((1, 3), (1, 2, 3), (0, 1, 3)):
-        for b in [(0, INF), (1, 2)]:
-            ar = lambda m: 0 if m == 0 else (2 if m == 3 else 1)
-            mon_pre.append([g.create(0, g.shape(fn=F1, mk1='ANY', seqar=ar(m1), nse=1), obj=0, lo=b[0], hi=b[1], s1=1 if m1 == 2 else 0, s2=1),
-                            g.op(OP_NEW_WATCHED, obj=0), g.monitor(1, g.shape(mock='W', seqar=ar(m2)), w=0, s1=1 if m2 == 2 else 0, s2=1),
-                            g.create(2, g.shape(fn=F1, mk1='ANY', seqar=ar(m3), nse=1), obj=0, lo=1, hi=2, s1=1 if m3 == 2 else 0, s2=1),
-                            g.create(3, g.shape(fn=F1, mk1='EQ', seqar=0, nse=1), obj=0, k1=1, lo=0, hi=INF)])
+    mon_pre = monitor_prefixes(g)
     mon_alpha = calls + [g.op(OP_DELETE_WATCHED, obj=0), g.op(OP_DESTROY_SEQ, s1=0), g.op(OP_DESTROY_SEQ, s1=1)] + [g.release(i) for i in range(4)]  # a sequence object may die first: its steps are then unordered
     # two mock objects sharing the sequences: the death of one object does not release the steps registered on it
     two_pre = []
@@ -479,6 +490,7 @@ def c07_alphabet(g, slots):
         A.append(g.create(slot, g.shape(fn=F2, mk1='EQ', mk2='ANY', tform='FORBID'), obj=0, k1=1))
         A.append(g.create(slot, g.shape(fn=F1, mk1='ANY', tform='FORBID', nwith=1), obj=0, wmode=(2, 0, 0)))            # FORBID_CALL(...).WITH(_1 != 2)
         A.append(g.create(slot, g.shape(fn=F1, mk1='EQ', tform='FORBID', vform=True), obj=0, k1=1))                     # the variadic macro forms
+        A.append(g.create(slot, g.shape(fn=F1, mk1='ANY', tform='FORBID', nwith=1, vform=True), obj=0, wmode=(2, 0, 0)))  # NAMED_FORBID_CALL_V(m, f(_), .WITH(_1 != 2))
         A.append(g.create(slot, g.shape(fn=F1, mk1='LT', tform='ALLOW', nse=1, vform=True), obj=0, k1=2))
         # sequenced allowing expectations: a callable-but-not-first-in-line newer expectation must not take a call from an older forbid
         A.append(g.create(slot, g.shape(fn=G1, mk1='ANY', tform='RT', seqar=1), obj=0, lo=1, hi=INF, s1=0))
